@@ -87,6 +87,116 @@ def UNDER_ENUM_OR_FUNCTION(mods, decl_id):
     return any(decl_id.startswith(e + "/") for e in enums)
 
 
+# ---------------------------------------------------------------------------------------------- C07: results against the source
+def _own_returns(fnode):
+    """Return statements of the function itself (not of nested functions, lambdas or classes)."""
+    import ast as _ast
+    out = []
+    stack = list(fnode.body)
+    while stack:
+        n = stack.pop()
+        if isinstance(n, (_ast.FunctionDef, _ast.AsyncFunctionDef, _ast.ClassDef, _ast.Lambda)):
+            continue
+        if isinstance(n, _ast.Return):
+            out.append(n)
+        stack.extend(_ast.iter_child_nodes(n))
+    return out
+
+
+def _literal_kinds(expr):
+    """position -> set of builtin type names of the literal values `expr` can evaluate to (conditional
+    expressions explored on both sides); None when some alternative is not a literal / tuple of literals."""
+    import ast as _ast
+    if isinstance(expr, _ast.IfExp):
+        a, b = _literal_kinds(expr.body), _literal_kinds(expr.orelse)
+        if a is None or b is None:
+            return None
+        out = {}
+        for d in (a, b):
+            for k, v in d.items():
+                out.setdefault(k, set()).update(v)
+        return out
+    if isinstance(expr, _ast.Tuple):
+        out = {}
+        for i, e in enumerate(expr.elts):
+            k = _literal_kinds(e)
+            if k is None or set(k) != {0}:
+                return None
+            out[i] = k[0]
+        return out
+    lit = pyoracle.literal_default(expr)
+    if lit[0] == "lit":
+        return {0: {"None" if lit[1] is None else type(lit[1]).__name__}}
+    return None
+
+
+def _type_names(td):
+    if td is None:
+        return set()
+    if td["kind"] == "NamedType":
+        return {td["name"]}
+    if td["kind"] == "UnionType":
+        return set().union(*[_type_names(t) for t in td["types"]]) if td["types"] else set()
+    if td["kind"] == "LiteralType":
+        return {"None" if v is None else type(v).__name__ for v in td["literals"]}
+    return set()
+
+
+def RESULTS_OK(api, f):
+    """C07 on one function of the source: `-> None` has no results; an annotated tuple one result per element;
+    any other annotation exactly one; default names result_1.. unless the docstring names them; un-annotated:
+    every literal a return statement can produce at a position is covered by the type of that result, and no
+    results at all when nothing is returned."""
+    import ast as _ast
+    af = api.functions.get(f.id)
+    if af is None or f.node is None:
+        return True
+    names_from_docs = [d.name for d in af.result_docstrings if d.name]
+    if f.returns is not None:
+        ann = f.returns
+        if isinstance(ann, _ast.Constant) and isinstance(ann.value, str):
+            try:
+                ann = _ast.parse(ann.value, mode="eval").body
+            except SyntaxError:
+                return True
+        if isinstance(ann, _ast.Constant) and ann.value is None:
+            # the model keeps `-> None` as one None-typed result, which the emitter contract (RESULTS) renders as
+            # no result list; nothing else may be recorded
+            return af.results == [] or (len(af.results) == 1 and af.results[0].type is not None
+                                        and af.results[0].type.to_dict() == {"kind": "NamedType", "name": "None", "qname": "builtins.None"})
+        if isinstance(ann, _ast.Call):
+            return True             # not an annotation of the type grammar
+        want = 1
+        if isinstance(ann, _ast.Subscript) and _ast.unparse(ann.value) in ("tuple", "Tuple", "typing.Tuple"):
+            elts = ann.slice.elts if isinstance(ann.slice, _ast.Tuple) else [ann.slice]
+            if any(isinstance(e, _ast.Constant) and e.value is Ellipsis for e in elts):
+                return True         # homogeneous tuples: outside the statement's list
+            want = len(elts)
+        if len(af.results) < want or (len(af.results) > want and len(af.results) != len(af.result_docstrings)):
+            return False
+        if not names_from_docs and [r.name for r in af.results[:want]] != [f"result_{i + 1}" for i in range(want)]:
+            return False
+        return True
+    rets = [r for r in _own_returns(f.node) if r.value is not None]
+    if any(isinstance(n, (_ast.Yield, _ast.YieldFrom)) for n in _ast.walk(f.node)):
+        return True
+    if not rets:
+        return af.results == [] or bool(af.result_docstrings)
+    if af.result_docstrings and any(d.type is not None for d in af.result_docstrings):
+        return True                 # docstring types fill in for a missing hint (C14)
+    for r in rets:
+        kinds = _literal_kinds(r.value)
+        if kinds is None:
+            continue
+        for pos, ks in kinds.items():
+            if pos >= len(af.results):
+                return False
+            have = _type_names(af.results[pos].type.to_dict() if af.results[pos].type is not None else None)
+            if not ks <= have:
+                return False
+    return True
+
+
 @contract(_GA + "get_api", props=["C03", "C04", "C06", "C07", "C12", "C13", "C15", "C01"])
 class get_api_c:
     deductive = False
@@ -129,6 +239,11 @@ class get_api_c:
                 if not KNOWN_SUPERCLASS(c):
                     return False
         return True
+
+    @clause(props=["C07"], mode="bounded")
+    def ensures_results(root, docstring_style, is_test_run, type_source_preference, type_source_warning, result):
+        mods = ORACLE(root, is_test_run)
+        return all(RESULTS_OK(result, f) for f in pyoracle.all_functions(mods) if not UNDER_ENUM_OR_FUNCTION(mods, f.id))
 
     @clause(props=["C04"], mode="bounded")
     def ensures_publicity(root, docstring_style, is_test_run, type_source_preference, type_source_warning, result):
@@ -237,6 +352,7 @@ def _get_api_cases(seed, tier):
     from safeds_stubgen.api_analyzer import TypeSourcePreference, TypeSourceWarning
     from safeds_stubgen.docstring_parsing import DocstringStyle
     pkgs = [("/verif/fixtures/pkgs/kwpkg", "PLAINTEXT"), ("/verif/fixtures/pkgs/tdpkg", "PLAINTEXT"),
+            ("/verif/fixtures/pkgs/advpkg", "PLAINTEXT"),
             ("/repo/tests/data/various_modules_package", "PLAINTEXT")]
     if tier != "quick":
         pkgs += [("/verif/fixtures/pkgs/kwpkg", "NUMPYDOC"), ("/repo/tests/data/docstring_parser_package", "GOOGLE")]
@@ -283,7 +399,9 @@ def FRESH_DOCS(root, style, api):
     one-entry cache is emptied before every query, queried in reverse order of the analysis."""
     from types import SimpleNamespace
     from safeds_stubgen.docstring_parsing import create_docstring_parser
-    parser = create_docstring_parser(style, root)
+    from specs.fixtures import hidden_verif
+    with hidden_verif():
+        parser = create_docstring_parser(style, root)
 
     def reset():
         for attr in ("_DocstringParser__cached_node", "_DocstringParser__cached_docstring"):
@@ -323,9 +441,11 @@ class get_api_docs_c:
         from safeds_stubgen.api_analyzer import TypeSourceWarning, get_api
         import logging
         other = TypeSourceWarning.IGNORE if type_source_warning.name == "WARN" else TypeSourceWarning.WARN
+        from specs.fixtures import hidden_verif
         logging.disable(logging.CRITICAL)
         try:
-            again = get_api(root, docstring_style, is_test_run, type_source_preference, other)
+            with hidden_verif():
+                again = get_api(root, docstring_style, is_test_run, type_source_preference, other)
         finally:
             logging.disable(logging.NOTSET)
         return again.to_dict() == result.to_dict()
@@ -354,16 +474,16 @@ def _docs_cases(seed, tier):
     from pathlib import Path
     from safeds_stubgen.api_analyzer import TypeSourcePreference, TypeSourceWarning
     from safeds_stubgen.docstring_parsing import DocstringStyle
-    sys.path[:] = [p for p in sys.path if os.path.abspath(p or ".") != "/verif"] + ["/verif"]
     styles = ["NUMPYDOC"] if tier == "quick" else ["NUMPYDOC", "GOOGLE", "REST"]
     for style in styles:
         for pref in ("CODE", "DOCSTRING"):
             yield {"kwargs": {"root": Path("/repo/tests/data/docstring_parser_package"), "docstring_style": DocstringStyle[style],
                               "is_test_run": True, "type_source_preference": TypeSourcePreference[pref],
                               "type_source_warning": TypeSourceWarning.WARN}}
-    yield {"kwargs": {"root": Path("/verif/fixtures/pkgs/kwpkg"), "docstring_style": DocstringStyle.NUMPYDOC,
-                      "is_test_run": True, "type_source_preference": TypeSourcePreference.DOCSTRING,
-                      "type_source_warning": TypeSourceWarning.IGNORE}}
+    for pkg in ("kwpkg", "advpkg"):
+        yield {"kwargs": {"root": Path("/verif/fixtures/pkgs/" + pkg), "docstring_style": DocstringStyle.NUMPYDOC,
+                          "is_test_run": True, "type_source_preference": TypeSourcePreference.DOCSTRING,
+                          "type_source_warning": TypeSourceWarning.IGNORE}}
 
 
 get_api_docs_c.native_cases = staticmethod(_docs_cases)
